@@ -2,6 +2,10 @@
 Model of occa::trieNode and occa::trie<TM>
 (src/occa/internal/utils/trie.hpp, trie.cpp, trie.tpp), written after the C++ statement by
 statement — as REPAIRED by fixes/F32, F33, FC28a, FC28b, FC28c (see design-notes/C28.md).
+The straight-line integer expressions and conditions the property hinges on (reported lengths,
+erase conditions, index shifting, binary-search bounds, frozen match/success conditions, freeze
+offsets) are not written here: they come from OccaGen/TrieShape.lean, regenerated from the C++
+by translate/gen_trie.py on every check (`Gen.Trie.*`).
 
 Core Lean only (no Mathlib): the drivers link against it, and other models (the tokenizer's
 operator trie, C12) can import the specification part at the top of this file:
@@ -22,6 +26,8 @@ Representation choices (each is a renaming, not a simplification):
   * a C++ trap (out-of-range read or write of an array / of `values`) is the outer `none` of an
     `Option` result — so "never traps" is a theorem, not an artefact of totality.
 -/
+import OccaGen.TrieShape
+
 namespace Occa.Trie
 
 /-! ## Specification: association lists and the longest stored prefix -/
@@ -152,13 +158,13 @@ def addN : List α → Nat → Node α → Node α
     `(length, valueIndex)` of `result_t`.  (F32 repaired: `cIndex`, not `cIndex + 1`, when the
     deeper lookup fails below a node that holds a value.) -/
 def getN : List α → Nat → Node α → Nat × Option Nat
-  | [], cIndex, mk v _ => (cIndex, v)
+  | [], cIndex, mk v _ => ((Gen.Trie.getMissLength cIndex).toNat, v)
   | c :: cs, cIndex, mk v ks =>
     match find c ks with
-    | none => (cIndex, v)
+    | none => ((Gen.Trie.getMissLength cIndex).toNat, v)
     | some child =>
-      let r := getN cs (cIndex + 1) child
-      if r.2.isNone && v.isSome then (cIndex, v) else r
+      let r := getN cs (Gen.Trie.getNextIndex cIndex).toNat child
+      if r.2.isNone && v.isSome then ((Gen.Trie.getFallbackLength cIndex).toNat, v) else r
 
 /-- `trieNode::getValueIndex(c)`: the index of `c` if exactly `c` is matched -/
 def getValueIndex (c : List α) (n : Node α) : Option Nat :=
@@ -177,15 +183,15 @@ def nestedRemove : α → List α → Node α → Node α × Bool
         match cs with
         | c' :: cs' =>
           let (leaf', emptyTree) := nestedRemove c' cs' leaf
-          if emptyTree then eraseKey c ks else replaceKey c leaf' ks
+          if Gen.Trie.eraseEmptiedChild emptyTree ks.length then eraseKey c ks else replaceKey c leaf' ks
         | [] =>
-          if leaf.kids.isEmpty then eraseKey c ks else replaceKey c (mk none leaf.kids) ks
+          if Gen.Trie.eraseLeafChild leaf.kids.length then eraseKey c ks else replaceKey c (mk none leaf.kids) ks
       (mk v ks', v.isNone && ks'.isEmpty)
 
 mutual
 /-- `trieNode::decrementIndex(valueIndex_)` (FC28a repaired: the node itself first) -/
 def decrementIndex (vi : Nat) : Node α → Node α
-  | mk v ks => mk (v.map fun i => if i > vi then i - 1 else i) (decrementKids vi ks)
+  | mk v ks => mk (v.map fun (i : Nat) => if Gen.Trie.decrementCond (i : Int) (vi : Int) then i - 1 else i) (decrementKids vi ks)
 def decrementKids (vi : Nat) : List (α × Node α) → List (α × Node α)
   | [] => []
   | (c, n) :: r => (c, decrementIndex vi n) :: decrementKids vi r
@@ -243,7 +249,7 @@ mutual
     their descendants from `offset + k` on; returns the next free offset.  `none` = a write
     outside the arrays. -/
 def freezeN : Node α → Nat → Cells α → Option (Cells α × Nat)
-  | mk _ ks, offset, arr => freezeKids ks offset (offset + ks.length) arr
+  | mk _ ks, offset, arr => freezeKids ks offset (Gen.Trie.freezeLeafOffset offset ks.length).toNat arr
 /-- the `while (leaf != leaves.end())` loop with its variables `offset`, `leafOffset` -/
 def freezeKids : List (α × Node α) → Nat → Nat → Cells α → Option (Cells α × Nat)
   | [], _, leafOffset, arr => some (arr, leafOffset)
@@ -287,32 +293,38 @@ def bsearch (arr : Cells α) (offset : Nat) (ci : α) : Nat → Int → Int → 
   | 0, _, _ => .trap
   | fuel + 1, start, end_ =>
     if start ≤ end_ then
-      let mid := (start + end_) / 2
+      let mid := Gen.Trie.bsMid start end_
       match arr[offset + mid.toNat]? with
       | some (some cell) =>
-        if ci < cell.ch then bsearch arr offset ci fuel start (mid - 1)
-        else if cell.ch < ci then bsearch arr offset ci fuel (mid + 1) end_
+        if ci < cell.ch then bsearch arr offset ci fuel start (Gen.Trie.bsLeftEnd start end_)
+        else if cell.ch < ci then bsearch arr offset ci fuel (Gen.Trie.bsRightStart start end_) end_
         else .hit cell
       | _ => .trap
     else .miss
+
+/-- the `int` held by a value-index variable (`none` = -1), and back -/
+def viInt : Option Nat → Int
+  | none => -1
+  | some i => i
+def intVi (x : Int) : Option Nat := if x < 0 then none else some x.toNat
 
 /-- the outer `for (i < length)` loop of the frozen `getLongest`: `pos = c - cStart` -/
 def frozenLoop (arr : Cells α) : List α → Nat → Nat → Nat → Nat → Option Nat → Option (Nat × Option Nat)
   | [], _, _, _, retLength, retVI => some (retLength, retVI)
   | ci :: cs, offset, count, pos, retLength, retVI =>
-    match bsearch arr offset ci (count + 1) 0 ((count : Int) - 1) with
+    match bsearch arr offset ci (count + 1) (Gen.Trie.bsInitStart count) (Gen.Trie.bsInitEnd count) with
     | .trap => none
     | .miss => some (retLength, retVI)
     | .hit cell =>
-      if cell.vi.isSome then frozenLoop arr cs cell.off cell.cnt (pos + 1) (pos + 1) cell.vi
+      if Gen.Trie.frozenHasValue (viInt cell.vi) then frozenLoop arr cs cell.off cell.cnt (pos + 1) (pos + 1) cell.vi
       else frozenLoop arr cs cell.off cell.cnt (pos + 1) retLength retVI
 
 /-- frozen branch of `trie::getLongest(c, length)` (FC28b repaired: starts from the root's value
     index — the empty key — and succeeds whenever an index was found) -/
 def getLongestFrozen (f : Frozen α) (rootVal : Option Nat) (q : List α) : Option Result :=
-  match frozenLoop f.cells q 0 f.baseNodeCount 0 0 rootVal with
+  match frozenLoop f.cells q 0 f.baseNodeCount 0 0 (intVi (Gen.Trie.frozenInitIndex (viInt rootVal))) with
   | none => none
-  | some (len, vi) => some (if vi.isSome then ⟨len, vi⟩ else Result.fail)
+  | some (len, vi) => some (if Gen.Trie.frozenSuccess len (viInt vi) then ⟨len, vi⟩ else Result.fail)
 
 /-- `trie::trieGetLongest(c, length)` -/
 def trieGetLongest (root : Node α) (q : List α) : Result :=
